@@ -37,19 +37,20 @@ import (
 )
 
 type c22Op struct {
-	K     string `json:"k"` // w | load | loadsql | boot | snap | restart | down | up | join | run
-	N     int    `json:"n,omitempty"`
-	Tbl   string `json:"tbl,omitempty"`
-	Key   int    `json:"key,omitempty"`
-	Del   bool   `json:"del,omitempty"`
-	Gen   uint64 `json:"gen,omitempty"`
-	Mode  string `json:"mode,omitempty"` // wal | delete
-	Via   string `json:"via,omitempty"`  // http | store
-	Bad   string `json:"bad,omitempty"`  // invalid data kind ("" = valid)
-	Crash bool   `json:"crash,omitempty"`
-	Voter bool   `json:"voter,omitempty"`
-	Trail int    `json:"trail,omitempty"`
-	Ms    int    `json:"ms,omitempty"`
+	K       string `json:"k"` // w | load | loadsql | boot | snap | restart | down | up | join | run
+	N       int    `json:"n,omitempty"`
+	Tbl     string `json:"tbl,omitempty"`
+	Key     int    `json:"key,omitempty"`
+	Del     bool   `json:"del,omitempty"`
+	Gen     uint64 `json:"gen,omitempty"`
+	Mode    string `json:"mode,omitempty"` // wal | delete
+	Via     string `json:"via,omitempty"`  // http | store
+	Bad     string `json:"bad,omitempty"`  // invalid data kind ("" = valid)
+	Crash   bool   `json:"crash,omitempty"`
+	Rebuild bool   `json:"rebuild,omitempty"` // restart must rebuild the database from the snapshot store + log (Store.ForceSnapshotRestore)
+	Voter   bool   `json:"voter,omitempty"`
+	Trail   int    `json:"trail,omitempty"`
+	Ms      int    `json:"ms,omitempty"`
 }
 
 type c22Scenario struct {
@@ -82,6 +83,23 @@ func c22Gen(r *core.Rand, tier string) any {
 	}
 	nodes := sc.Nodes
 	down := 0
+	// chain: the history the property is about, in its shortest form - after a
+	// load, a few writes, a snapshot on one node that truncates the log behind the
+	// load entry, and a restart of that same node (fast path or rebuild).
+	chain := func() {
+		k := r.Intn(8)
+		for j, n := 0, r.Range(1, 2); j < n; j++ {
+			sc.Ops = append(sc.Ops, c22Op{K: "w", N: r.Intn(8), Tbl: "a", Key: r.Range(1, 12)})
+		}
+		sc.Ops = append(sc.Ops, c22Op{K: "snap", N: k, Trail: 1})
+		if r.Bool(0.6) {
+			sc.Ops = append(sc.Ops, c22Op{K: "w", N: r.Intn(8), Tbl: "a", Key: r.Range(1, 12)})
+		}
+		if r.Bool(0.3) {
+			sc.Ops = append(sc.Ops, c22Op{K: "snap", N: k, Trail: 1})
+		}
+		sc.Ops = append(sc.Ops, c22Op{K: "restart", N: k, Crash: r.Bool(0.6), Rebuild: r.Bool(0.6)})
+	}
 	for i := 0; i < nops; i++ {
 		x := r.Intn(100)
 		switch {
@@ -94,12 +112,18 @@ func c22Gen(r *core.Rand, tier string) any {
 				op.Bad = c22BadFile[r.Intn(len(c22BadFile))]
 			}
 			sc.Ops = append(sc.Ops, op)
+			if op.Bad == "" && r.Bool(0.5) {
+				chain()
+			}
 		case x < 64:
 			op := c22Op{K: "loadsql", N: r.Intn(8), Gen: r.Uint64()}
 			if r.Bool(0.3) {
 				op.Bad = "sqlerr"
 			}
 			sc.Ops = append(sc.Ops, op)
+			if op.Bad == "" && r.Bool(0.3) {
+				chain()
+			}
 		case x < 72 || (nodes == 1 && x < 80):
 			if nodes == 1 && down == 0 {
 				op := c22Op{K: "boot", Gen: r.Uint64(), Mode: []string{"wal", "delete"}[r.Intn(2)]}
@@ -107,16 +131,19 @@ func c22Gen(r *core.Rand, tier string) any {
 					op.Bad = c22BadFile[r.Intn(len(c22BadFile))]
 				}
 				sc.Ops = append(sc.Ops, op)
+				if op.Bad == "" && r.Bool(0.5) {
+					chain()
+				}
 			} else {
 				sc.Ops = append(sc.Ops, c22Op{K: "snap", N: r.Intn(8), Trail: []int{0, 0, 1, 2}[r.Intn(4)]})
 			}
 		case x < 80:
 			sc.Ops = append(sc.Ops, c22Op{K: "snap", N: r.Intn(8), Trail: []int{0, 0, 1, 2}[r.Intn(4)]})
 		case x < 88:
-			sc.Ops = append(sc.Ops, c22Op{K: "restart", N: r.Intn(8), Crash: r.Bool(0.5)})
+			sc.Ops = append(sc.Ops, c22Op{K: "restart", N: r.Intn(8), Crash: r.Bool(0.5), Rebuild: r.Bool(0.4)})
 		case x < 92:
 			if nodes >= 3 && down == 0 {
-				sc.Ops = append(sc.Ops, c22Op{K: "down", N: r.Intn(8), Crash: r.Bool(0.5)})
+				sc.Ops = append(sc.Ops, c22Op{K: "down", N: r.Intn(8), Crash: r.Bool(0.5), Rebuild: r.Bool(0.4)})
 				down = 1
 			} else if down > 0 {
 				sc.Ops = append(sc.Ops, c22Op{K: "up"})
@@ -138,7 +165,7 @@ func c22Gen(r *core.Rand, tier string) any {
 	if nodes < 5 {
 		sc.Ops = append(sc.Ops, c22Op{K: "join", Voter: r.Bool(0.5)})
 	}
-	sc.Ops = append(sc.Ops, c22Op{K: "restart", N: r.Intn(8), Crash: r.Bool(0.5)})
+	sc.Ops = append(sc.Ops, c22Op{K: "restart", N: r.Intn(8), Crash: r.Bool(0.5), Rebuild: r.Bool(0.5)})
 	return sc
 }
 
@@ -758,6 +785,7 @@ func c22Run(c *core.Ctx, raw json.RawMessage) {
 				}
 			} else if resp != nil {
 				c.Probe(fmt.Sprintf("user_snapshot_%d", resp.Code))
+				c.Log.Add("snapshot n%d -> %d %.200s", n.Idx, resp.Code, strings.TrimSpace(resp.Body))
 			}
 			lastKind = "snapshot"
 		case "restart", "down":
@@ -781,6 +809,13 @@ func c22Run(c *core.Ctx, raw json.RawMessage) {
 					return
 				}
 				c.Probe("node_stopped_gracefully")
+			}
+			if op.Rebuild {
+				// same effect as Store.ForceSnapshotRestore() on the closed store: without the
+				// clean-snapshot marker the node rebuilds its database from the snapshot
+				// store and the log instead of trusting the file it finds
+				os.Remove(filepath.Join(n.Dir, "clean_snapshot"))
+				c.Probe("restart_forced_to_rebuild")
 			}
 			if op.K == "down" {
 				downIdx = n.Idx
